@@ -56,6 +56,239 @@ class Conc:
                     except SpecError as e:
                         self.errors.append("%s:%d: %s" % (cl.file, cl.line, e))
 
+    MODULE = "github.com/filecoin-project/go-data-transfer/v2"
+
+    def lock_class(self, T, lname):
+        """class of a mutex: <short struct type>.<field>; None for a mutex that is not a struct field"""
+        if not T or not lname:
+            return None
+        return "%s.%s" % (short_t(T), lname)
+
+    def resolve_lock_class(self, text, pkg):
+        tn, f = text.strip().rsplit(".", 1)
+        T = self.resolve_type_name(tn, pkg)
+        if not any(x["name"] == f for x in self.ir.fields(T)):
+            raise SpecError("type %s has no field %s" % (tn, f))
+        return self.lock_class(T, f)
+
+    def index_lockorder(self):
+        """lockorder declarations (a strict partial order on lock classes) and the acquires / locked / invokes clauses"""
+        self.lock_lt = set()
+        self.lockorder_decls = []
+        for d in self.decls:
+            try:
+                if d.kind == "lockorder":
+                    self.lockorder_decls.append(d)
+                    for chain in d.clauses[0].text.split(";"):
+                        cs = [self.resolve_lock_class(x, d.pkg) for x in chain.split("<") if x.strip()]
+                        for i in range(len(cs)):
+                            for j in range(i + 1, len(cs)):
+                                self.lock_lt.add((cs[i], cs[j]))
+                elif d.kind in ("func", "extern"):
+                    for cl in d.clauses:
+                        if cl.kind == "acquires":
+                            acq = d.attrs.setdefault("acq", set())
+                            for x in cl.text.split("--")[0].split(","):
+                                x = x.strip()
+                                if x and x != "nothing":
+                                    acq.add(self.resolve_lock_class(x, d.pkg))
+                        elif cl.kind in ("locked", "rlocked"):
+                            cl.ast = parse_expr(cl.text)
+                        elif cl.kind == "refines":
+                            d.attrs.setdefault("refines", []).extend(x.strip() for x in cl.text.split("--")[0].split(",") if x.strip())
+                        elif cl.kind == "invokes":
+                            d.attrs.setdefault("invokes", []).extend(x.strip() for x in cl.text.split(",") if x.strip())
+            except SpecError as e:
+                self.errors.append("%s:%d: %s" % (d.file, d.line, e))
+        # transitive closure; the order must be strict
+        changed = True
+        while changed:
+            changed = False
+            for (a, b) in list(self.lock_lt):
+                for (c, e) in list(self.lock_lt):
+                    if b == c and (a, e) not in self.lock_lt:
+                        self.lock_lt.add((a, e))
+                        changed = True
+        for (a, b) in self.lock_lt:
+            if a == b or (b, a) in self.lock_lt:
+                self.errors.append("lockorder: the declared order is not strict at %s / %s" % (a, b))
+                break
+
+    LOCK_FUNCS = ("(*sync.Mutex).Lock", "(*sync.RWMutex).Lock", "(*sync.RWMutex).RLock")
+
+    TESTISH = ("/testutil", "/testharness", "/benchmarks", "/itest")
+
+    def implementors(self, iface_t, mname):
+        """functions of the module (outside its test helpers) that implement method mname of interface iface_t"""
+        key = (iface_t, mname)
+        cache = self.__dict__.setdefault("_impl_cache", {})
+        if key in cache:
+            return cache[key]
+        res = []
+        for t, ti in self.ir.types.items():
+            impl = ti.get("implements") or []
+            if not impl or any(x in t for x in self.TESTISH):
+                continue
+            if iface_t in impl:
+                f = self.ir.method_func(t, mname)
+            elif "*" + iface_t in impl:
+                f = self.ir.method_func("*" + t, mname)
+            else:
+                continue
+            if f and f in self.ir.funcs:
+                res.append(f)
+        cache[key] = res
+        return res
+
+    def lock_relevant_funcs(self):
+        if getattr(self, "_lock_rel", None) is not None:
+            return self._lock_rel
+        self._lock_rel = self._lock_relevant_funcs()
+        return self._lock_rel
+
+    def _lock_relevant_funcs(self):
+        """functions whose execution can reach a mutex acquisition or a callee with a declared lock effect
+        (static calls, closures and invoked interface methods; over-approximation used only to select what C20 verifies)"""
+        ir = self.ir
+        edges, direct = {}, set()
+        for name, fn in ir.funcs.items():
+            outs = set()
+            for b in fn["blocks"]:
+                for i in b["instrs"]:
+                    op = i["op"]
+                    if op in ("Call", "Go", "Defer"):
+                        aux = i.get("aux") or {}
+                        c = aux.get("callee")
+                        if aux.get("mode") == "dynamic" and i.get("args"):
+                            tn = i["args"][0].get("t") or ""
+                            if "func(" not in tn:
+                                dd = self.contract_for("dyn." + tn.rsplit("/", 1)[-1].rsplit(".", 1)[-1])
+                                if dd is not None and dd.attrs.get("acq"):
+                                    direct.add(name)
+                        if c in self.LOCK_FUNCS:
+                            direct.add(name)
+                        elif c:
+                            outs.add(c)
+                            d = self.contract_for(c)
+                            if d is not None and d.attrs.get("acq"):
+                                direct.add(name)
+                            if aux.get("mode") == "invoke" and aux.get("iface", "").startswith(self.MODULE):
+                                outs.update(self.implementors(aux["iface"], aux["method"]))
+                    elif op == "MakeClosure":
+                        outs.add(i["aux"]["fn"])
+            edges[name] = outs
+        rel = set(direct)
+        changed = True
+        while changed:
+            changed = False
+            for n, outs in edges.items():
+                if n not in rel and outs & rel:
+                    rel.add(n)
+                    changed = True
+        return rel
+
+    def lock_props(self):
+        """lock-effect obligations (order, declared effects, refinement) belong to C20 alone"""
+        return {"C20"}
+
+    def own_props(self):
+        """ownership / re-acquisition obligations also count for the properties the function is tagged with"""
+        return set(self.cur["safety_props"]) | {"C20"}
+
+    def check_order(self, st, cls, ins, via=None, extra_held=()):
+        """acquiring a lock of class cls (directly, or through the callee `via`) with the locks of st held"""
+        if self.cur is None or self.quiet or cls is None:
+            return
+        o = self.obl("lock", "order:%s" % cls.rsplit("/", 1)[-1], self.lock_props())
+        helds = [(self.lock_class(h[3], h[4]), h[4]) for h in st.held] + [(c, c) for c in extra_held]
+        o.instances += 1
+        bad = [H for (H, _) in helds if H is not None and (H, cls) not in self.lock_lt]
+        if bad:
+            o.failed.append({"pos": ins.get("pos") if ins else None, "callee": via, "held": bad[0], "acquired": cls,
+                             "reason": "%s %s while %s is held: %s" % (
+                                 ("calls %s, which acquires" % via) if via else "acquires", cls, bad[0],
+                                 "a lock of the same class (self-deadlock when it is the same object, no order between two of them)" if bad[0] == cls
+                                 else "not allowed by the declared lock order")})
+        else:
+            o.proved += 1
+
+    def note_acquired(self, st, classes):
+        cur = st.ghost.get("acquired") or frozenset()
+        st.ghost["acquired"] = cur | frozenset(c for c in classes if c)
+
+    def callee_lock_effects(self, fr, st, decl, name, args, ins):
+        """call of a callee under contract: its declared acquires against the locks held here; its locked-preconditions"""
+        if self.cur is None or self.quiet:
+            return
+        acq = decl.attrs.get("acq") or ()
+        for c in sorted(acq):
+            self.check_order(st, c, ins, via=short_t(name))
+        self.note_acquired(st, acq)
+        # function values handed to a callee that invokes them during the call (`invokes f`)
+        inv = decl.attrs.get("invokes") or []
+        if inv:
+            fn = self.ir.funcs.get(name)
+            pn = [p["name"] for p in fn["params"]] if fn else (decl.attrs.get("params") or [])
+            for pname in inv:
+                if pname not in pn:
+                    continue
+                a = args[pn.index(pname)]
+                if not isinstance(a, FuncV) or not a.fn:
+                    if st.held or acq:
+                        o = self.obl("lock", "invoked-closure-under-contract", self.lock_props())
+                        o.instances += 1
+                        o.failed.append({"pos": ins.get("pos"), "reason": "an unknown function value is handed to %s, which invokes it under locks" % short_t(name)})
+                    continue
+                cd = self.contract_for(a.fn)
+                if cd is None:
+                    o = self.obl("lock", "invoked-closure-under-contract", self.lock_props())
+                    o.instances += 1
+                    o.failed.append({"pos": ins.get("pos"), "reason": "%s is invoked by %s but has no contract" % (short_t(a.fn), short_t(name))})
+                    continue
+                cacq = cd.attrs.get("acq") or ()
+                for c in sorted(cacq):
+                    self.check_order(st, c, ins, via=short_t(a.fn), extra_held=sorted(acq))
+                self.note_acquired(st, cacq)
+                self.check_locked_pre(fr, st, cd, a.fn, list(a.bindings), ins)
+
+    def locked_clause_keys(self, st, decl, fname, args):
+        """(lock key, mode, clause) for the locked / rlocked clauses of decl, evaluated with the given arguments"""
+        fn = self.ir.funcs.get(fname)
+        names = {}
+        if fn is not None:
+            fvn = [p["name"] for p in (fn.get("freevars") or [])]
+            pn = [p["name"] for p in fn["params"]]
+            ps = fvn + pn if len(args) == len(fvn) + len(pn) else (fvn if fvn and len(args) == len(fvn) else pn)
+            for n, a in zip(ps, args):
+                names[n] = a
+        res = []
+        for cl in decl.clauses:
+            if cl.kind not in ("locked", "rlocked"):
+                continue
+            ctx = SpecCtx(self, st, st, names, fr_pkg=(fn["pkg"] if fn else decl.pkg))
+            p = ctx.eval_addr(cl.ast)
+            res.append((self.lock_key(st, p), "w" if cl.kind == "locked" else "r", cl, p))
+        return res
+
+    def check_locked_pre(self, fr, st, decl, fname, args, ins):
+        for (key, mode, cl, p) in self.locked_clause_keys(st, decl, fname, args):
+            o = self.obl("pre", "%s.%s" % (short_t(fname).rsplit(".", 1)[-1], cl.kind), self.lock_props())
+            o.instances += 1
+            modes = [h[1] for h in st.held if h[0] == key]
+            if ("w" in modes) if mode == "w" else bool(modes):
+                o.proved += 1
+            else:
+                o.failed.append({"pos": ins.get("pos"), "reason": "%s requires %s %s, which is not held at this call" % (short_t(fname), cl.kind, cl.text)})
+
+    def enter_locked(self, fr, st, decl, fname, args):
+        """verification of a function that is only ever called with some locks held (locked / rlocked clauses)"""
+        for (key, mode, cl, p) in self.locked_clause_keys(st, decl, fname, args):
+            q, self.quiet = self.quiet, True
+            try:
+                self.on_lock(fr, st, p, {"pos": None}, mode, entry=True)
+            finally:
+                self.quiet = q
+
     def struct_type_at(self, p):
         """(struct type, object pointer) that contains the field addressed by p (a pointer to a field)"""
         if not p.path:
@@ -79,23 +312,34 @@ class Conc:
         return (cell, tuple(p.path))
 
     # ------------------------------------------------------------------
-    def on_lock(self, fr, st, p, ins, mode):
+    def on_lock(self, fr, st, p, ins, mode, entry=False):
         if self.cur is None:
             return
         key = self.lock_key(st, p)
         T, obj = self.struct_type_at(p)
         lname = p.path[-1] if p.path else None
         guarded = (self.lock_decls.get(T) or {}).get(lname)
+        if not self.quiet and not entry:
+            cls = self.lock_class(T, lname)
+            if not any(h[0] == key for h in st.held):
+                self.check_order(st, cls, ins)
+            self.note_acquired(st, [cls])
         if not self.quiet:
             held_keys = [h[0] for h in st.held]
-            o = self.obl("lock", "no-reacquire:%s" % lname, self.cur["safety_props"])
+            o = self.obl("lock", "no-reacquire:%s" % lname, self.own_props())
             o.instances += 1
             if key in held_keys:
                 o.failed.append({"pos": ins.get("pos"), "reason": "lock %s is acquired while already held on this path (sync mutexes are not reentrant)" % lname})
             else:
                 o.proved += 1
         snap = None
-        if guarded:
+        est = [x.strip() for cl in self.cur["decl"].clauses if cl.kind == "establishes" for x in cl.text.split(",")] if self.cur.get("decl") is not None else []
+        if guarded and lname in est and ("established", key) not in st.ghost:
+            # object under construction (`establishes <lock>`): nobody has held the lock yet, its invariants are not assumed here
+            # (they are proved at the Unlock like everywhere else)
+            st.ghost[("established", key)] = True
+            snap = st.clone()
+        elif guarded:
             prev = st.ghost.get(("lastobs", key))
             before = prev if prev is not None else st.clone()
             # havoc the guarded fields
@@ -132,7 +376,7 @@ class Conc:
                     if msg not in self.errors:
                         self.errors.append(msg)
             snap = st.clone()
-        st.held = st.held + [(key, mode, snap, T, lname)]
+        st.held = st.held + [(key, mode, snap, T, lname) + (("entry",) if entry else ())]
 
     def inv_ast(self, cl):
         return cl.ast
@@ -149,11 +393,11 @@ class Conc:
         lname = p.path[-1] if p.path else None
         if idx is None:
             if not self.quiet:
-                o = self.obl("lock", "unlock-held:%s" % lname, self.cur["safety_props"])
+                o = self.obl("lock", "unlock-held:%s" % lname, self.own_props())
                 o.instances += 1
                 o.failed.append({"pos": ins.get("pos"), "reason": "unlock of a lock that is not held on this path"})
             return
-        (_, hmode, snap, T, _) = st.held[idx]
+        (_, hmode, snap, T, _) = st.held[idx][:5]
         d = self.type_invs.get(T)
         obj = None
         if snap is not None:
@@ -250,7 +494,7 @@ class Conc:
         if T is None:
             return
         if (T, p.path[-1]) in self.atomic_fields and not isinstance(obj.cell, int):
-            o = self.obl("ownership", "atomic:%s.%s" % (short_t(T).rsplit(".", 1)[-1], p.path[-1]), self.cur["safety_props"])
+            o = self.obl("ownership", "atomic:%s.%s" % (short_t(T).rsplit(".", 1)[-1], p.path[-1]), self.own_props())
             o.instances += 1
             o.failed.append({"pos": ins.get("pos"), "reason": "plain %s of field %s, which is declared atomic (only sync/atomic operations may touch it)" % ("write" if write else "read", p.path[-1])})
             return
@@ -262,7 +506,7 @@ class Conc:
         key = self.lock_key(st, PtrV(None, obj.cell, obj.path + (lname,), False, obj.ref, obj.roott))
         modes = [h[1] for h in st.held if h[0] == key]
         ok = ("w" in modes) if write else bool(modes)
-        o = self.obl("ownership", "%s.%s" % (short_t(T).rsplit(".", 1)[-1], p.path[-1]), self.cur["safety_props"])
+        o = self.obl("ownership", "%s.%s" % (short_t(T).rsplit(".", 1)[-1], p.path[-1]), self.own_props())
         o.instances += 1
         if ok:
             o.proved += 1
@@ -296,7 +540,7 @@ class Conc:
         key, T, f = g
         modes = [h[1] for h in st.held if h[0] == key]
         ok = ("w" in modes) if write else bool(modes)
-        o = self.obl("ownership", "%s.%s[]" % (short_t(T).rsplit(".", 1)[-1], f), self.cur["safety_props"])
+        o = self.obl("ownership", "%s.%s[]" % (short_t(T).rsplit(".", 1)[-1], f), self.own_props())
         o.instances += 1
         if ok:
             o.proved += 1
